@@ -214,6 +214,8 @@ func (c *c05) Plan(seed uint64, tier string, worker, workers, idx int) *Plan {
 		}
 		if k < 0 {
 			ops = append(ops, Op{Kind: "reader", In: &in, Wrap: "bytes"})
+			ops = append(ops, Op{Kind: "file", In: &in})
+			ops = append(ops, Op{Kind: "reader", In: &in})
 		}
 	}
 	if b.first {
@@ -342,6 +344,9 @@ func (c *c05) Check(rr *RunResult, st *Stats) []Failure {
 		}
 		if op.Kind == "reader" && limit > 0 && res.Stream != nil && res.Stream.Pos() > int(limit) {
 			bad("over-read", "the reader was left at offset %d, the limit is %d", res.Stream.Pos(), limit)
+		}
+		if op.Kind == "file" && reach && k == n {
+			reach = false // failing exactly where the content ends: not reached by a reader that learnt the size from Stat
 		}
 		if op.Kind == "file" && !reach && k >= 0 {
 			corner = true // a file failing beyond the header: the statement covers failures before the header is complete only
